@@ -10,6 +10,7 @@ import (
 	"time"
 
 	"github.com/daeuniverse/dae/component/sniffing"
+	"github.com/daeuniverse/outbound/netproxy"
 	vs "github.com/daeuniverse/dae/zz_vs"
 )
 
@@ -135,8 +136,19 @@ func Verif_C05_relay() {
 		prefix = vs.Bytes("client.prefix", 4)
 		left = &prefixedConn{Conn: client, prefix: prefix}
 	case 2: // DNS-over-TCP detection peeked at the stream through a bufio.Reader
-		bc := &bufioConn{Conn: client, reader: bufio.NewReaderSize(client, 16)}
+		bc := &bufioConn{Conn: client, reader: bufio.NewReader(client)} // the reader handleConn creates (4 KiB)
 		left = bc
+		// the gather path reads pending client bytes along with the peeked prefix when the source is a
+		// TCP socket with data waiting: let the model socket count as one
+		vs.Replace("github.com/daeuniverse/dae/control.relayGatherWriteTCPConn", func(conn netproxy.Conn) (*net.TCPConn, bool) {
+			if _, is := conn.(*bufioConn); is {
+				return &net.TCPConn{}, true
+			}
+			return nil, false
+		})
+		vs.Replace("github.com/daeuniverse/dae/control.tcpConnHasPendingReadData", func(conn *net.TCPConn) (bool, error) {
+			return len(client.in) > 0, nil
+		})
 	case 3: // the sniffer on top of read-ahead bytes that are neither TLS nor HTTP
 		prefix = []byte{0, 1, 2, 3}
 		left = sniffing.NewConnSniffer(&prefixedConn{Conn: client, prefix: prefix}, 100*time.Millisecond)
